@@ -143,7 +143,7 @@ func ParseLine(s string) *Line {
 		}
 	}
 
-	if s[0] == ':' {
+	if s != "" && s[0] == ':' {
 		// remove a source and parse it
 		if idx := strings.Index(s, " "); idx != -1 {
 			line.Src, s = s[1:idx], s[idx+1:]
@@ -164,10 +164,15 @@ func ParseLine(s string) *Line {
 	// now we're here, we've parsed a :nick!user@host or :server off
 	// s should contain "cmd args[] :text"
 	args := strings.SplitN(s, " :", 2)
+	fields := strings.Fields(args[0])
+	if len(fields) == 0 {
+		// nothing left after the tags / source: there is no verb
+		return nil
+	}
 	if len(args) > 1 {
-		args = append(strings.Fields(args[0]), args[1])
+		args = append(fields, args[1])
 	} else {
-		args = strings.Fields(args[0])
+		args = fields
 	}
 	line.Cmd = strings.ToUpper(args[0])
 	if len(args) > 1 {
@@ -178,6 +183,7 @@ func ParseLine(s string) *Line {
 	// separate events as opposed to forcing people to have gargantuan
 	// handlers to cope with the possibilities.
 	if (line.Cmd == PRIVMSG || line.Cmd == NOTICE) &&
+		len(line.Args) > 1 &&
 		len(line.Args[1]) > 2 &&
 		strings.HasPrefix(line.Args[1], "\001") &&
 		strings.HasSuffix(line.Args[1], "\001") {
@@ -207,7 +213,7 @@ func ParseLine(s string) *Line {
 func parseUserHost(uh string) (nick, ident, host string, ok bool) {
 	uh = strings.TrimSpace(uh)
 	nidx, uidx := strings.Index(uh, "!"), strings.Index(uh, "@")
-	if uidx == -1 || nidx == -1 {
+	if uidx == -1 || nidx == -1 || nidx > uidx {
 		return "", "", "", false
 	}
 	return uh[:nidx], uh[nidx+1 : uidx], uh[uidx+1:], true
